@@ -86,4 +86,27 @@ def run (merge : J → V → Option V) : CState J V → List (Act J V) → Optio
     | some s' => run merge s' rest
     | none => none
 
+/-! ### the same system WITHOUT the dispatcher's request lock
+
+`handle_request` holding its lock only for the look-up of the handler (any number of requests under way at once): `begin` /
+`finish` are always possible and a merge needs `accessLock` only.  Everything that concerns the module — the merge into the
+cached value, the driver call, the store — is as before.  (Used to state which clauses of C04 depend on the request lock
+and which on `accessLock` alone; the real dispatcher is `step`.) -/
+def stepFree (merge : J → V → Option V) (s : CState J V) : Act J V → Option (CState J V)
+  | .begin _ => some s
+  | .finish _ => some s
+  | .acquire t => if s.owner = none then some { s with owner := some t, merged := none } else none
+  | .merge t j => if s.owner = some t then some { s with merged := mergeNow merge s j } else none
+  | .call t => if s.owner = some t then doCall s t else none
+  | .direct t => if s.owner = some t then some s else none
+  | .store t v => if s.owner = some t then some { s with cur := v, merged := none } else none
+  | .release t => if s.owner = some t then some { s with owner := none, merged := none } else none
+
+def runFree (merge : J → V → Option V) : CState J V → List (Act J V) → Option (CState J V)
+  | s, [] => some s
+  | s, a :: rest =>
+    match stepFree merge s a with
+    | some s' => runFree merge s' rest
+    | none => none
+
 end Frappy.Node.ChangeSection
